@@ -4,6 +4,7 @@
 -/
 import PyGqlModel.Props.C18
 import PyGqlModel.Props.C18_once
+import PyGqlModel.Props.C18_edit
 
 namespace PyGql.Props.C18
 open PyGql.Visit PyGql.Generated.VisitTable
@@ -100,8 +101,6 @@ example : (implKeys 64 witnessSmall).isSome = true ∧ (implKeys 64 witnessExec)
     (implKeys 64 witnessSdl).isSome = true := by decide +kernel
 example : (idsNode witnessSmall).Nodup ∧ (idsNode witnessExec).Nodup := by decide +kernel
 
-/-- acts on the node with identity `i`, changes nothing elsewhere -/
-def actAt (i : Nat) (a : Node → Act) : Visitor Unit := ⟨fun n s => (if n.id == i then a n else .keep n, s), fun _ s => s⟩
 
 /-- such a visitor that deletes or skips is identity preserving (hypothesis of `balanced`) -/
 example (i : Nat) : IdPreserving (actAt i fun _ => .delete) := by
